@@ -279,7 +279,8 @@ func (x *c12) caseLoss(mask int, delayKind int) {
 func (x *c12) caseNoise() {
 	msg, tid := x.request()
 	other := tid
-	other[0] ^= 0xFF
+	// a foreign id differs from the request's in exactly one of its 12 bytes - any of them
+	other[x.rng.Intn(12)] ^= byte(1 << x.rng.Intn(8))
 	plan := x.rng.Intn(4)
 	x.srv.SetHandler(func(s *sim.ScriptedServer, from *net.UDPAddr, ev sim.SrvEvent) {
 		if ev.Msg == nil || ev.Msg.TID != tid {
@@ -335,8 +336,22 @@ func (x *c12) caseConcurrent() {
 		tid [12]byte
 	}
 	var trs []one
+	// transaction ids chosen by the application may look alike: half of the time they share all
+	// but one byte (a counter at the end, or at the start)
+	alike := x.rng.Intn(2) == 0
+	var base [12]byte
+	x.rng.Read(base[:])
+	pos := pick(x.rng, []int{0, 7, 8, 11})
 	for i := 0; i < n; i++ {
 		m, tid := x.request()
+		if alike {
+			tid = base
+			tid[pos] = byte(i + 1)
+			var err error
+			if m, err = stun.Build(stun.NewTransactionIDSetter(tid), stun.BindingRequest); err != nil {
+				x.t.Fatal(err)
+			}
+		}
 		trs = append(trs, one{m, tid})
 	}
 	var mu sync.Mutex
@@ -623,6 +638,68 @@ func (x *c12) caseRtxWriteRace() {
 	x.rec.SetSample(map[string]any{"kind": "rtx-write-race", "k": k, "write_fails": failWrite, "rto": x.rto.String()})
 }
 
+// caseCloseDuringRtxWrite: Client.Close lands while retransmission k is inside its (slow) socket
+// write, which then fails or succeeds: the transaction ends once, with an error, and nothing blows up.
+func (x *c12) caseCloseDuringRtxWrite() {
+	_, fail := schedule(x.rto)
+	k := 1 + x.rng.Intn(maxRtx-1)
+	failWrite := x.rng.Intn(2) == 0
+	msg, tid := x.request()
+	x.srv.SetHandler(nil)
+	var mu sync.Mutex
+	writes := 0
+	closed := make(chan struct{})
+	x.rc.Conn.WriteHook = func(b []byte, _ net.Addr) (int, error, bool) {
+		if m, err := wire.ParseSTUN(b); err != nil || m.TID != tid {
+			return 0, nil, false
+		}
+		mu.Lock()
+		i := writes
+		writes++
+		mu.Unlock()
+		if i != k {
+			return 0, nil, false
+		}
+		go func() { x.rc.Client.Close(); close(closed) }()
+		for j := 0; j < 300; j++ {
+			runtime.Gosched() // (no sleep: the client holds its transaction lock across this write)
+		}
+		if failWrite {
+			return 0, errors.New("injected write error"), true
+		}
+
+		return 0, nil, false
+	}
+	out := make(chan trResult, 2)
+	x.perform(msg, out)
+	select {
+	case res := <-out:
+		if res.err == nil {
+			x.rec.Violate("tr-unexpected-result", "close-during-rtx-write", "PerformTransaction returned success although the client was closed during retransmission %d and no response came", k)
+		}
+	case <-time.After(fail + 10*time.Second):
+		x.rec.Violate("tr-hang", "close-during-rtx-write", "PerformTransaction did not return (Close during the write of retransmission %d, write fails=%v)", k, failWrite)
+
+		return
+	}
+	select {
+	case <-closed:
+	case <-time.After(10 * time.Second):
+		x.rec.Violate("tr-hang", "close-during-rtx-write/close", "Client.Close did not return")
+
+		return
+	}
+	x.rc.Conn.WriteHook = nil
+	time.Sleep(fail + 5*time.Second)
+	select {
+	case res := <-out:
+		x.rec.Violate("tr-completed-twice", "close-during-rtx-write", "a second result was produced: %q %v", res.tag, res.err)
+	default:
+	}
+	x.rec.FP("close-during-rtx-write/k=%d/fail=%v", k, failWrite)
+	x.rec.SetSample(map[string]any{"kind": "close-during-rtx-write", "k": k, "write_fails": failWrite, "rto": x.rto.String()})
+}
+
 // caseIgnoreResult: a fire-and-forget transaction (ignoreResult) follows the same schedule, stops at
 // the first matching response and leaves the table empty, too.
 func (x *c12) caseIgnoreResult() {
@@ -688,7 +765,9 @@ func runC12(t *testing.T, rng *rand.Rand, rec *sim.Rec, tier string, caseNo int)
 	}
 	x := newC12(t, rng, rec, rto)
 	defer x.close()
-	switch (caseNo - lossCases) % 8 {
+	switch (caseNo - lossCases) % 9 {
+	case 8:
+		x.caseCloseDuringRtxWrite()
 	case 7:
 		x.caseRtxWriteRace()
 	case 6:
